@@ -207,6 +207,20 @@ DebugAltOK(a, r) ==
            inner == SubSeq(r.t, Len(DbgPrefix) + 1, Len(r.t) - 2)
        IN Chk(r.t = want /\ (FitsI64(ZNeg(a.z)) => IsNumeral(inner) /\ ParseValue(inner) = a), "debug-representation")
 
+\* {:?} : BigDecimal(sign=Plus, scale=2, digits=[<base-2^64 limbs, little endian>])
+RECURSIVE Limbs64(_)
+Limbs64(d) == IF d = <<>> THEN <<>> ELSE LET dm == NDivMod(d, P2_64) IN <<dm[2]>> \o Limbs64(dm[1])
+RECURSIVE JoinLimbs(_, _)
+JoinLimbs(ls, i) == IF i > Len(ls) THEN <<>>
+                    ELSE DigitsText(ls[i]) \o (IF i < Len(ls) THEN <<44, 32>> ELSE <<>>) \o JoinLimbs(ls, i + 1)
+DebugOK(a, r) ==
+  IF "t" \notin DOMAIN r THEN Bad("outcome-kind")
+  ELSE LET sg == IF a.s > 0 THEN <<80, 108, 117, 115>> ELSE IF a.s < 0 THEN <<77, 105, 110, 117, 115>> ELSE <<78, 111, 83, 105, 103, 110>>
+           want == <<66, 105, 103, 68, 101, 99, 105, 109, 97, 108, 40, 115, 105, 103, 110, 61>> \o sg
+                   \o <<44, 32, 115, 99, 97, 108, 101, 61>> \o ZText(a.z)
+                   \o <<44, 32, 100, 105, 103, 105, 116, 115, 61, 91>> \o JoinLimbs(Limbs64(a.d), 1) \o <<93, 41>>
+       IN Chk(r.t = want, "debug-representation")
+
 \* ---------------------------------------------------------------- C16: precision formatting and flags
 W(x) == WMk(x.s, x.d, ZOfInt(x.sc))
 \* {:.N}: exactly N digits after the point, value = the library's own rounding to scale N in the default mode
